@@ -67,7 +67,7 @@ def run_real(responder, budget, max_send=256, max_recv=256, stop_after=None, gar
             if again and nd is not None:
                 r.where = "has_changed"
                 nd.has_changed
-                nd2 = tag.ndef          # the same object or None when the re-read failed
+                nd2 = tag._ndef         # the same object, or None when the re-read failed (tag.ndef would read again)
                 r.second = show_ndef(nd2) if nd2 is nd or nd2 is None else "other-object"
                 if nd2 is not None:
                     r.octets, r.length, r.capacity = bytes(nd2.octets), nd2.length, nd2.capacity
